@@ -131,11 +131,17 @@ func Disassemble(main *runtime.Function, globals []Global, n int) map[string][]b
 			packages = packages[:]
 		}
 
+		// Collect the functions in discovery order and sort them by line
+		// with a stable sort, so that functions with the same line (functions
+		// of different files, functions without a position) always come out
+		// in the same order.
 		functions := make([]*runtime.Function, 0, len(funcs))
-		for fn := range funcs {
-			functions = append(functions, fn)
+		for _, fn := range allFunctions {
+			if _, ok := funcs[fn]; ok {
+				functions = append(functions, fn)
+			}
 		}
-		sort.Slice(functions, func(i, j int) bool { return funcs[functions[i]] < funcs[functions[j]] })
+		sort.SliceStable(functions, func(i, j int) bool { return funcs[functions[i]] < funcs[functions[j]] })
 
 		for _, fn := range functions {
 			if fn.Macro {
